@@ -198,8 +198,9 @@ def datasets(draw, max_n=7, max_m=5, min_n=1, shapes=None, kinds=None, allow_emp
              allow_duplicates=True):
     """returns dict(rankings=..., shape=..., kind=...)"""
     shape = draw(st.sampled_from(shapes or SHAPES))
-    n = draw(st.integers(min_n, max_n))
-    m = draw(st.integers(1, max_m))
+    # sampled_from is uniform (st.integers is biased to small values); it still shrinks towards the smallest size
+    n = draw(st.sampled_from(list(range(min_n, max_n + 1))))
+    m = draw(st.sampled_from(list(range(1, max_m + 1))))
     if kinds is None:
         kind, names = draw(element_names(n))
     else:
